@@ -1,0 +1,31 @@
+//go:build verif
+
+package descriptor
+
+// Contracts for gocv (see /verif/DESIGN.md). Comment-only file.
+
+//@ package descriptor
+//@ import ocispec "github.com/opencontainers/image-spec/specs-go/v1"
+//@
+//@ pure isForeign(d ocispec.Descriptor) bool = d.MediaType == "application/vnd.oci.image.layer.nondistributable.v1.tar"
+//@      || d.MediaType == "application/vnd.oci.image.layer.nondistributable.v1.tar+gzip"
+//@      || d.MediaType == "application/vnd.oci.image.layer.nondistributable.v1.tar+zstd"
+//@      || d.MediaType == "application/vnd.docker.image.rootfs.foreign.diff.tar.gzip"
+//@ pure isManifestType(d ocispec.Descriptor) bool = d.MediaType == "application/vnd.docker.distribution.manifest.v2+json"
+//@      || d.MediaType == "application/vnd.docker.distribution.manifest.list.v2+json"
+//@      || d.MediaType == "application/vnd.oci.image.manifest.v1+json"
+//@      || d.MediaType == "application/vnd.oci.image.index.v1+json"
+//@      || d.MediaType == "application/vnd.oci.artifact.manifest.v1+json"
+//@
+//@ func IsForeignLayer
+//@   ensures [C01:exact] result == isForeign(desc)
+//@   modifies nothing
+//@ func IsManifest
+//@   ensures [C01:exact] result == isManifestType(desc)
+//@   modifies nothing
+//@ func FromOCI
+//@   ensures [C01,C07:key] result == K(desc)
+//@   modifies nothing
+//@ func Plain
+//@   ensures [C08:plain] result == ocispec.Descriptor{MediaType: desc.MediaType, Digest: desc.Digest, Size: desc.Size}
+//@   modifies nothing
